@@ -751,6 +751,8 @@ f_set_eval_limit (void)
       break;
     default:
       CONFIG_INT (__MAX_EVAL_COST__) = (int)sp->u.number;
+      if (CONFIG_INT (__MAX_EVAL_COST__) < 1)
+        CONFIG_INT (__MAX_EVAL_COST__) = 1; /* a budget below 1 would never expire */
       break;
     }
 }
